@@ -8,6 +8,6 @@ if ! git apply --3way "$patch" 2>/tmp/try_seed_apply.log && ! git apply "$patch"
 git reset -q 2>/dev/null
 for p in "$@"; do
   echo "=== $p $tier with seed $(basename $(dirname $patch))"
-  ( cd /verif && ./check "$p" "$tier" 2>&1 | grep -E "VIOLATION|held|VIOLATED|machinery|unlisted clause" | cut -c1-260 | awk '/^VIOLATION/{n++; if(n<=2)print; next} {print} END{print "  (" n+0 " VIOLATION lines)"}' | tail -12 )
+  ( cd /verif && ./check "$p" "$tier" 2>&1 | grep -aE "VIOLATION|held|VIOLATED|machinery|unlisted clause" | cut -c1-260 | awk '/^VIOLATION/{n++; if(n<=2)print; next} {print} END{print "  (" n+0 " VIOLATION lines)"}' | tail -12 )
 done
 git -C /repo checkout -- . && git -C /repo status --short | head -3
